@@ -11,7 +11,7 @@ from hypothesis import strategies as st
 
 from valjean.gavroche.stat_tests.chi2 import TestChi2
 from vlib.core import Failure, Outcome, exc_failure, HarnessError
-from vlib import dist, statgen
+from vlib import dsutil, dist, statgen
 from vlib.statgen import close
 
 ID = 'C07'
@@ -114,7 +114,7 @@ def _case(draw):
     perm = draw(st.permutations(list(range(size))))
     return {'shape': shape, 'kinds': kinds, 'ref': {'v': refv, 'e': refe}, 'others': others,
             'alpha': alpha, 'ignore_empty': ignore, 'perm': list(perm),
-            'layout': draw(st.sampled_from(['C', 'C', 'F'])) if len(shape) >= 2 else 'C'}
+            'layout': draw(st.sampled_from(dsutil.LAYOUTS))}
 
 
 def _int_case(draw, shape, kinds, size, nds, alpha, ignore, err, vdtype, vmax):
@@ -147,7 +147,7 @@ def _int_case(draw, shape, kinds, size, nds, alpha, ignore, err, vdtype, vmax):
     perm = draw(st.permutations(list(range(size))))
     return {'shape': shape, 'kinds': kinds, 'ref': {'v': refv, 'e': refe}, 'others': others,
             'alpha': alpha, 'ignore_empty': ignore, 'perm': list(perm), 'vdtype': vdtype,
-            'layout': draw(st.sampled_from(['C', 'C', 'F'])) if len(shape) >= 2 else 'C'}
+            'layout': draw(st.sampled_from(dsutil.LAYOUTS))}
 
 
 def strategy(tier):
